@@ -356,6 +356,65 @@ Definition schedule_sync_wakeups (margin0 jitter_cap tip : Z) (ts : list (Z * Z 
   end.
 
 (* ------------------------------------------------------------------------------------------ *)
+(** * Schedule shift (state.rs [MigrationState::shift_schedule], reached through the overdue
+      re-spread of satisfiability.rs [advance_migration])
+
+    A transaction row, as far as the shift is concerned:
+    (state, is_transfer, scheduled_height, expiry_height, anchor_boundary) with state
+    0 = AwaitingSignature, 1 = Signed, 2 = Proved, 3 = Broadcast, 4 = Mined. *)
+Definition stx := (Z * bool * Z * Z * option Z)%type.
+
+(** one iteration of the loop of [shift_schedule]: in-flight and mined rows are skipped; pending
+    rows move by [delta] (saturating); expiry heights are untouched; a transfer whose proof is
+    still to come gets its boundary redrawn against the shifted schedule, floored at the prior
+    boundary, and keeps the prior one when the redraw finds no candidate *)
+Definition shift_tx (oc : bool) (I delta : Z) (t : stx) (ws : list Z) : draw stx :=
+  let '(st, tr, sched, ex, an) := t in
+  if (st =? 3) || (st =? 4) then Ok (t, ws)
+  else
+    let s' := sat_add_u32 sched delta in
+    if (st =? 0) || (st =? 1) then
+      match tr, an with
+      | true, Some prior =>
+          match redraw_anchor_boundary oc I prior s' ws with
+          | Ok (Some fresh, r) => Ok ((st, tr, s', ex, Some fresh), r)
+          | Ok (None, r) => Ok ((st, tr, s', ex, Some prior), r)
+          | _ => Panic
+          end
+      | _, _ => Ok ((st, tr, s', ex, an), ws)
+      end
+    else Ok ((st, tr, s', ex, an), ws).
+
+Fixpoint shift_all (oc : bool) (I delta : Z) (txs : list stx) (ws : list Z) : draw (list stx) :=
+  match txs with
+  | [] => Ok ([], ws)
+  | t :: rest =>
+      match shift_tx oc I delta t ws with
+      | Ok (t', r) =>
+          match shift_all oc I delta rest r with
+          | Ok (l, r') => Ok (t' :: l, r')
+          | _ => Panic
+          end
+      | _ => Panic
+      end
+  end.
+
+(** [overdue_shift_tolerance] of the transfer delay derived from the persisted interval *)
+Definition overdue_tolerance (I : Z) : Z := Z.max (scale_delay I TRANSFER_DELAY_MEAN / 4) 1.
+
+(** The overdue re-spread of [advance_migration] when the step it serves is the broadcast of the
+    first row (a proved, due transfer): if that row lags the served target by more than the
+    tolerance, every pending row is shifted by the lag; otherwise nothing moves. *)
+Definition advance_overdue (oc : bool) (I served : Z) (txs : list stx) (ws : list Z) : draw (list stx) :=
+  match txs with
+  | [] => Ok ([], ws)
+  | (_, _, s0, _, _) :: _ =>
+      if sat_add_u32 s0 (overdue_tolerance I) <? served
+      then shift_all oc I (served - s0) txs ws
+      else Ok (txs, ws)
+  end.
+
+(* ------------------------------------------------------------------------------------------ *)
 (** * Classification *)
 
 Record evidence := mkEv {
